@@ -1,7 +1,9 @@
 /-
 C06 — model of `MatchHost` / `MatchPath` / `MatchPathRE` (modules/caddyhttp/matchers.go) and of
 `CleanPath` / `cleanPath` (modules/caddyhttp/caddyhttp.go), as the code is NOW (after the
-`fix:` commit that lower-cases exact entries and the probe of the large-list fast path).
+`fix:` commits that lower-case exact entries and the probe of the large-list fast path, that
+restrict that fast path to ASCII request hosts, and
+that lower-case the escaped path (and the text built from it) for patterns containing `%`).
 
 Byte strings are `List UInt8`.  `strings.ToLower` / `strings.EqualFold` are modelled by ASCII
 case folding (they coincide with it on ASCII strings; the correspondence domain is ASCII, see
@@ -189,10 +191,17 @@ def hostLoop (large : Bool) (reqHost : Bytes) : List Bytes → Bool
     if large && !fuzzy e then false      -- `break`
     else entryMatches reqHost e || hostLoop large reqHost es
 
+/-- `isASCII(reqHost)` -/
+def asciiOnly (s : Bytes) : Bool := s.all (· < 128)
+
+/-- `large := m.large() && isASCII(reqHost)`: the fast paths are taken for ASCII request hosts only -/
+def useFast (thr : Nat) (m : List Bytes) (reqHost : Bytes) : Bool :=
+  decide (m.length > thr) && asciiOnly reqHost
+
 /-- `MatchHost.MatchWithError` on a provisioned slice `m` -/
 def matchHost (thr : Nat) (m : List Bytes) (rhost : Bytes) : Bool :=
-  if decide (m.length > thr) && fastHit m (lower (stripPort rhost)) then true
-  else hostLoop (decide (m.length > thr)) (stripPort rhost) m
+  if useFast thr m (stripPort rhost) && fastHit m (lower (stripPort rhost)) then true
+  else hostLoop (useFast thr m (stripPort rhost)) (stripPort rhost) m
 
 /-- Provision + Match -/
 inductive HostRes where
@@ -494,7 +503,7 @@ def escLoop : Nat → Bytes → Bytes → Bytes → EscRes
 /-- `matchPatternWithEscapeSequence(escapedPath, matchPath)` -/
 def escMatch (escapedPath pat : Bytes) : Bool :=
   match escLoop (pat.length + 1) pat escapedPath [] with
-  | .built sb => globMatch (replacePctStar pat) sb == .yes
+  | .built sb => globMatch (replacePctStar pat) (lower sb) == .yes
   | _ => false
 
 def star : Bytes := [cStar]
@@ -514,7 +523,7 @@ def provisionPath : List Bytes → List Bytes
 def patMatches (lp esc : Bytes) (pat : Bytes) : Bool :=
   if pat = star then true
   else if pat.contains cPct then
-    escMatch (cleanPathMode (!containsSub pat [cSlash, cSlash]) esc) pat
+    escMatch (cleanPathMode (!containsSub pat [cSlash, cSlash]) (lower esc)) pat
   else if countByte cStar pat = 2 ∧ pat.head? = some cStar ∧ pat.getLast? = some cStar then
     containsSub (cleanPathMode (!containsSub pat [cSlash, cSlash]) lp) ((pat.drop 1).dropLast)
   else if countByte cStar pat = 1 ∧ pat.head? = some cStar then
